@@ -512,6 +512,26 @@ fn aggregate(candidates: &[Candidate], opposing: bool) -> (f64, usize) {
     (score, groups.len())
 }
 
+/// Verification hook (off unless the `verif` feature is enabled): runs the
+/// corroboration aggregation over bare `(actor, evidence ids, confidence)`
+/// triples, all on the supporting side, and returns `(score, groups)`.
+#[cfg(feature = "verif")]
+pub fn verif_aggregate(side: &[(String, Vec<String>, f64)]) -> (f64, usize) {
+    let candidates: Vec<Candidate> = side
+        .iter()
+        .enumerate()
+        .map(|(index, (actor, evidence, confidence))| Candidate {
+            id: ElementId::new(anda_kip::ElementKind::Assertion, index as u64 + 1),
+            actor: actor.clone(),
+            evidence: evidence.clone(),
+            stance: "support".to_string(),
+            confidence: *confidence,
+            opposes_target: false,
+        })
+        .collect();
+    aggregate(&candidates, false)
+}
+
 /// Stage 13: belief-state classification (§68–§73).
 fn classify(support: f64, opposition: f64, ledger: &Ledger, policy: &Policy) -> BeliefStatus {
     let engaged =
